@@ -33,3 +33,12 @@ import LapyVerif.Bridge.SolverGlue
 #print axioms LapyVerif.Bridge.glue_heat_rhs
 #print axioms LapyVerif.Bridge.glue_calls
 #print axioms LapyVerif.Bridge.glue_calls_names
+#print axioms LapyVerif.Bridge.census_FemTria_pcCount
+#print axioms LapyVerif.Bridge.census_FemTriaMass_pcCount
+#print axioms LapyVerif.Bridge.census_FemTriaAniso_pcCount
+#print axioms LapyVerif.Bridge.census_FemTet_pcCount
+#print axioms LapyVerif.Bridge.census_SolverGlue_pcCount
+#print axioms LapyVerif.Bridge.census_HeatKernel_pcCount
+#print axioms LapyVerif.Bridge.census_Misc_pcCount
+#print axioms LapyVerif.Bridge.census_VertexMeasures_pcCount
+#print axioms LapyVerif.Bridge.census_TransferTri_pcCount
